@@ -225,12 +225,18 @@ class Module:
         # locals renamed by a refactoring are renamed back to the names the rules know (sa/alpha.py)
         self.alpha_renamed = 0
         # spelling first, names second: the reference shapes (sa/alpha_refs.json) are recorded from the spelling-normalised tree too
+        if os.environ.get("SA_NO_ALPHA") != "1" and os.environ.get("SA_NO_ALIAS") != "1":
+            # literals first: a new module constant standing for a literal is put back before spellings are compared
+            from sa import alpha
+            refs_ = alpha.load_refs().get(relpath)
+            if refs_:
+                self.alpha_renamed += alpha.inline_new_constants(self.tree, refs_)
         if os.environ.get("SA_NO_NORMAL") != "1":
             from sa import normal
             normal.normalise(self.tree)
         if os.environ.get("SA_NO_ALPHA") != "1":
             from sa import alpha
-            self.alpha_renamed = alpha.normalise_module(self.tree, relpath)
+            self.alpha_renamed += alpha.normalise_module(self.tree, relpath)
         self.name = relpath[:-3].replace("/", ".")
         if self.name.endswith(".__init__"):
             self.name = self.name[:-9]
